@@ -41,6 +41,10 @@ def gen_tree(rng, domain, depth):
     if depth <= 0 or rng.random() < 0.35:
         if domain == 'int':
             if rng.random() < 0.5:
+                if rng.random() < 0.15:
+                    # bounds at and beyond the machine word (Counter64-style ranges)
+                    lo = rng.choice([0, -2 ** 63, -2 ** 64, 2 ** 62, -1])
+                    return ('range', lo, rng.choice([2 ** 63 - 2, 2 ** 63 - 1, 2 ** 63, 2 ** 64 - 1, 2 ** 64, 2 ** 70]))
                 lo = rng.choice([-10, -1, 0, 1, 5, 100, 2 ** 31])
                 return ('range', lo, lo + rng.choice([0, 1, 5, 250]))
             return ('single', tuple(sorted(rng.sample([-2, -1, 0, 1, 2, 5, 6, 100, 255, 256], rng.randint(1, 4)))))
@@ -459,19 +463,21 @@ def check_chain(res, rng):
                             '%r at level %d: library %s, set theory %s' % (v, i, accepted[i], want))
         res.see('chain-candidates')
     # subtype recognition and assignment (only meaningful where no tag was added)
-    for i in range(1, len(chain)):
-        parent, child = chain[i - 1], chain[i]
-        if trees[i - 1][1]:
-            continue
+    # every ancestor, not only the direct parent: T0 recognises T2 and T3 as well
+    pairs = [(j, i) for i in range(1, len(chain)) for j in range(0, i) if not any(trees[k][1] for k in range(j, i))]
+    for j, i in pairs:
+        parent, child = chain[j], chain[i]
         res.see('subtype-relations-checked')
-        case = case0 + ('rel', i)
+        if i - j > 1:
+            res.see('subtype-relations-checked-across-%d-links' % (i - j))
+        case = case0 + ('rel', j, i)
         try:
             ok = parent.isSuperTypeOf(child)
         except Exception as ex:
             res.witness('chain:isSuperTypeOf-raised:' + type(ex).__name__, feats, case, ex)
             continue
         if not ok:
-            res.witness('chain:parent-does-not-recognise-child', feats, case, 'level %d of %r' % (i, trees))
+            res.witness('chain:parent-does-not-recognise-child', feats, case, 'levels %d -> %d of %r' % (j, i, trees))
             continue
         # a value of the child can be assigned where the parent is expected
         val = None
